@@ -110,8 +110,20 @@ def _jtext(v):
         return _cps("?" + type(v).__name__)
 
 
+_REF_CACHE: dict = {}
+
+
 def ref_tables(body: bytes, ctype, method: str):
     """one-shot references: fresh Request over body[k:], first access, for k = 0..len(body)"""
+    key = (body, ctype, method)
+    if key not in _REF_CACHE:
+        if len(_REF_CACHE) > 4000:
+            _REF_CACHE.clear()
+        _REF_CACHE[key] = _ref_tables(body, ctype, method)
+    return _REF_CACHE[key]
+
+
+def _ref_tables(body: bytes, ctype, method: str):
     formref, filesref, jsonref = [], [], []
     for k in range(len(body) + 1):
         r, _, _ = make_request(body[k:], ctype, method, False)
